@@ -82,6 +82,12 @@ def run(tier):
             e = dict(os.environ)
             e.update(py["env"])
             r = subprocess.run([py["python"], drv, so, sp, c, str(vlib.SEED), tier], stdout=f, stderr=subprocess.PIPE, env=e, timeout=7200)
+        if r.returncode != 0 and -r.returncode in vlib.FATAL_SIGNALS:
+            with open(p, "w") as f:                 # a fatal signal is believed only if a second run repeats it
+                r2 = subprocess.run([py["python"], drv, so, sp, c, str(vlib.SEED), tier], stdout=f, stderr=subprocess.PIPE, env=e, timeout=7200)
+            if r2.returncode == r.returncode:
+                raise vlib.Crash([py["python"], drv, so, sp, c, str(vlib.SEED), tier], -r.returncode, r2.stderr.decode("utf8", "replace")[-3000:], p)
+            r = r2
         if r.returncode != 0:
             crashed.append((c, r.returncode, r.stderr.decode("utf8", "replace")[-800:]))
         return p
